@@ -108,6 +108,33 @@ def _chunk_chain(args):
     return out
 
 
+def _chunk_idle(args):
+    """C11: the retention window across a phase in which the loop does not run its timers (monitor only)."""
+    prop, seed0, count = args
+    logging.disable(logging.CRITICAL)
+    out = Outcome()
+    for i in range(count):
+        rng = random.Random((seed0 << 20) + 750000 + i)
+        cfg = B.gen_idle(rng)
+        case = {'idle': True, 'cfg': cfg}
+        mark(case)
+        out.evaluations += 1
+        try:
+            res, batches, t_done = B.run_idle(cfg)
+        except Exception as e:
+            out.concrete.append({'case': case, 'what': f'execution failed: {type(e).__name__}: {e}',
+                                 'signature': {'kind': 'exception', 'type': type(e).__name__}})
+            continue
+        for (p, kind, detail) in B.monitor_idle(cfg, res, batches, t_done):
+            out.concrete.append({'case': case, 'what': f'{kind}: {detail}', 'observed': [repr(res), batches],
+                                 'signature': {'kind': kind}})
+        out.traces_validated += 1
+        out.fingerprints.add(fingerprint(case))
+        out.count('idle:' + cfg['how'])
+        out.count('idle:%s-window' % ('inside' if cfg['idle'] < cfg['ret'] else 'beyond'))
+    return out
+
+
 def _chunk_variant(args):
     """C09: the real code on the two programs the theorem C09_cancellations_invisible compares."""
     prop, seed0, count = args
@@ -181,6 +208,8 @@ def _dispatch(args):
         return _chunk_cleanup(args[1:])
     if args[0] == 'chain':
         return _chunk_chain(args[1:])
+    if args[0] == 'idle':
+        return _chunk_idle(args[1:])
     if args[0] == 'variant':
         return _chunk_variant(args[1:])
     return _chunk(args)
@@ -194,6 +223,7 @@ def make(prop, flavor, quick_n, thorough_n):
         chunks = [(prop, flavor, ctx.seed * 1000 + k, per, True) for k in range(max(1, n // per))]
         if prop == 'C11':
             chunks += [('chain', prop, ctx.seed * 1000 + k, 100 if ctx.quick else 3000) for k in range(workers)]
+            chunks += [('idle', prop, ctx.seed * 1000 + k, 120 if ctx.quick else 3000) for k in range(workers)]
         if prop == 'C09':
             chunks += [('variant', prop, ctx.seed * 1000 + k, 100 if ctx.quick else 3000) for k in range(workers)]
         if prop == 'C10':
@@ -206,6 +236,7 @@ def make(prop, flavor, quick_n, thorough_n):
         chunks = [(prop, flavor, (ctx.seed + 7) * 1000 + 500 + k, 400, False) for k in range(8)]
         if prop == 'C11':
             chunks += [('chain', prop, (ctx.seed + 7) * 1000 + 600 + k, 300) for k in range(4)]
+            chunks += [('idle', prop, (ctx.seed + 7) * 1000 + 600 + k, 300) for k in range(4)]
         if prop == 'C09':
             chunks += [('variant', prop, (ctx.seed + 7) * 1000 + 600 + k, 300) for k in range(4)]
         out = run_chunks(_dispatch, chunks, ctx.workers, limit_s=60)
@@ -219,6 +250,11 @@ def make(prop, flavor, quick_n, thorough_n):
             bad = B.monitor_chain(case['cfg'], case['callers'], res, batches)
             return {'case': case, 'requests': {str(k): v for k, v in res.items()}, 'batches': batches,
                     'monitor': bad, 'fails': bool(bad)}
+        if case.get('idle'):
+            res, batches, t_done = B.run_idle(case['cfg'])
+            bad = B.monitor_idle(case['cfg'], res, batches, t_done)
+            return {'case': case, 'results': repr(res), 'batches': batches, 'monitor': [list(map(str, b)) for b in bad],
+                    'fails': bool(bad)}
         if case.get('race'):
             ins = [tuple(i) for i in case['ins']]
             evs = B.run_real(case['cfg'], ins, case['plan'])
